@@ -23,6 +23,49 @@ def _lat(v, scale, tol=1e-6):
 ANCHOR = {"edge": "edge", "center": "center", "quarter": 0.25, "floating": "floating"}
 
 
+# regions in real CRSs: (source box l, b, r, t), base resolution in the requested CRS
+REGION = {"4326>3035": ((5.0, 40.0, 25.0, 60.0), 20000.0), "4326>32633": ((12.0, 45.0, 18.0, 55.0), 5000.0), "3577>4326": ((-1500000.0, -4000000.0, 1000000.0, -1500000.0), 0.25),
+          "3035>4326": ((3000000.0, 2000000.0, 5000000.0, 4000000.0), 0.25), "32633>3857": ((300000.0, 5000000.0, 700000.0, 6500000.0), 10000.0)}
+
+
+def execute_region(c):
+    """from_geopolygon(region in another, really different CRS): environment table = the region's vertices through fresh pyproj"""
+    import math
+
+    import pyproj
+    import shapely.geometry as sg
+
+    from odc.geo import geom as G
+    from odc.geo.crs import CRS
+    from odc.geo.geobox import GeoBox
+
+    ev = {"c": c, "outcome": "ok", "crs_ok": True, "pos": [], "o": {"ny": 0, "nx": 0, "edge": [0, 0], "axis_aligned": True, "res_ok": True}}
+    try:
+        s, d = c["pair"].split(">")
+        (l, b, r, t), res0 = REGION[c["pair"]]
+        mx, my = (l + r) / 2, (b + t) / 2
+        pts = {"diamond": [(mx, b), (r, my), (mx, t), (l, my)], "triangle": [(l, b), (r, b + (t - b) / 4), (mx, t)], "line": [(l, my), (mx, t), (r, b)],
+               "box": [(l, b), (r, b), (r, t), (l, t)], "multipoint": [(l, my), (mx, b), (r, t)]}[c["geo"]]
+        shp = {"line": sg.LineString, "multipoint": sg.MultiPoint}.get(c["geo"], sg.Polygon)(pts)
+        res = res0 * c["resk"]
+        anchor = {"edge": "edge", "center": "center", "floating": "floating"}[c["anchor"]]
+        gb = GeoBox.from_geopolygon(G.Geometry(shp, f"epsg:{s}"), resolution=res, crs=f"epsg:{d}", tight=c["tight"], anchor=anchor, tol=c["tol"][0] / c["tol"][1])
+        A = gb.affine
+        ev["crs_ok"] = bool(gb.crs == CRS(f"epsg:{d}"))
+        o = ev["o"]
+        o["ny"], o["nx"] = int(gb.shape[0]), int(gb.shape[1])
+        o["axis_aligned"] = bool(A.b == 0 and A.d == 0)
+        o["res_ok"] = bool(abs(A.a - res) <= 1e-9 * res and abs(A.e + res) <= 1e-9 * res)
+        o["edge"] = [int(round(((A.c / abs(A.a)) % 1.0) * 1024)) % 1024, int(round(((A.f / abs(A.e)) % 1.0) * 1024)) % 1024]
+        tr = pyproj.Transformer.from_crs(int(s), int(d), always_xy=True)
+        for x, y in pts:
+            wx, wy = tr.transform(x, y)
+            ev["pos"].append([int(math.floor((wx - A.c) / A.a * 1024)), int(math.floor((wy - A.f) / A.e * 1024))])
+    except Exception as ex:  # noqa: BLE001
+        ev["outcome"] = type(ex).__name__
+    return ev
+
+
 def execute(c):
     from affine import Affine
 
@@ -30,6 +73,8 @@ def execute(c):
     from odc.geo.geobox import GeoBox
     from odc.geo.types import resxy_, xy_
 
+    if c["mode"] == "region":
+        return execute_region(c)
     ev = {"c": c, "outcome": "ok", "crs_ok": True, "o": {}}
     try:
         mode = c["mode"]
@@ -99,8 +144,8 @@ def run(ctx):
     total = len(cases)
     if q:
         rc = [c for c in cases if c["mode"] == "res"]
-        sc = [c for c in cases if c["mode"] != "res"]
-        cases = ctx.subsample(rc, 14000) + ctx.subsample(sc, 4000)
+        sc = [c for c in cases if c["mode"] not in ("res", "region")]
+        cases = ctx.subsample(rc, 14000) + ctx.subsample(sc, 4000) + [c for c in cases if c["mode"] == "region"]
     else:
         cases = ctx.subsample(cases, 400000)
     events = ctx.pmap(execute, cases)
@@ -113,7 +158,8 @@ def run(ctx):
     ctx.extra["domain_cases_total"] = total
     ctx.rule = ("cases = regions on the 1/128 lattice (edges near and far from integers and pixel multiples, spans from 7/128 to 12 units) x resolutions +-{1/2,3/4,1,3/2,3} per axis x "
                 "anchors {edge, centre, 1/4, per-axis, floating} x tight x tol {1/100,1/10} x route {BoundingBox, tuple+crs, polygon, polygon in an exact-translation CRS, zoom_to} "
-                "x whole-pixel shifts of 2^20 and -3*2^20 pixels; shape-driven and single-number-shape construction; all non-trivial; distinct by input")
+                "x whole-pixel shifts of 2^20 and -3*2^20 pixels; shape-driven and single-number-shape construction; non-box regions (diamond, triangle, line, points) given in a really "
+                "different CRS (5 EPSG pairs) against a fresh-pyproj vertex table; all non-trivial; distinct by input")
     ctx.assumptions = ["whole-pixel shift family: the shifted request is compared with the unshifted expectation after subtracting the shift (exact in doubles)"]
 
 
